@@ -127,6 +127,7 @@ func createCron(node gen.Node) *cron {
 		in := next.Sub(now)
 		c.timer.Reset(in)
 		c.schedule(next)
+		lib.VerifPoint(c, "cron:tick-done")
 	})
 
 	return c
